@@ -13,13 +13,13 @@ package data
 //@   assigns nothing
 
 //@ func New() (d)
-//@   unfold-post forall k Iface {dget(d, k)} :: dget(d, k) == nil
+//@   unfold-post dmap(d) == emptyMap()
 //@   ensures d != nil
-//@   ensures [C02] empty: forall k Iface {dget(d, k)} :: dget(d, k) == nil
+//@   ensures [C02] empty: dmap(d) == emptyMap()
 //@   assigns nothing
 
 //@ func (d *emptyData) Value(k) (v)
-//@   unfold dget(boxed(d), k) == nil
+//@   unfold dmap(boxed(d)) == emptyMap()
 //@   assigns nothing
 
 //@ func (d *emptyData) Keys() (ks)
@@ -27,14 +27,14 @@ package data
 
 //@ func WithValue(d, k, v) (d1)
 //@   requires d != nil && k != nil && v != nil
-//@   unfold-post forall q Iface {dget(d1, q)} :: dget(d1, q) == ite(q == k, v, dget(d, q))
+//@   unfold-post dmap(d1) == store(dmap(d), k, v)
 //@   ensures d1 != nil
-//@   ensures [C02] persistent-extension: forall q Iface {dget(d1, q)} :: dget(d1, q) == ite(q == k, v, dget(d, q))
+//@   ensures [C02] persistent-extension: dmap(d1) == store(dmap(d), k, v)
 //@   assigns nothing
 
 //@ func (d *valueData) Value(k) (v)
 //@   requires d.Data != nil
-//@   unfold dget(boxed(d), k) == ite(k == d.k, d.v, dget(d.Data, k))
+//@   unfold dmap(boxed(d)) == store(dmap(d.Data), d.k, d.v)
 //@   assigns nothing
 
 //@ func Lookup(d, k, vptr) (ok)
@@ -50,4 +50,4 @@ package data
 //@   requires d != nil
 //@   assigns nothing
 //@   ensures d1 != nil
-//@   ensures forall q Iface {dget(d1, q)} :: dget(d1, q) == dget(d, q)
+//@   ensures dmap(d1) == dmap(d)
